@@ -105,6 +105,24 @@ def gen_cases(rng, tier):
         if len(ents) >= 2:
           ents[0][-1], ents[1][-1] = a_, b_
           break
+    if i % 7 == 5:
+      # ONE custom form used twice in a row with parameter lists that differ only by -1 versus -2 (equal hash() in
+      # CPython): as two arguments of one modifier, and called twice inside another formula - each use means its own
+      # parameters (anything remembered from the previous call and looked up by hash would not)
+      a_, b_ = rng.choice([(-1, -2), (-1.0, -2.0), (-2, -1), (-2.0, -1.0)])
+      x_ = spec.rfloat(rng, 0.5, 3.0, 2)
+      m["forms"] = list(m.get("forms") or []) + [
+        {"name": "hc", "params": ["r", "x", "k"], "breaks": [], "expr": ["+", ["*", ["var", "x"], ["var", "r"]], ["*", ["num", 10.0], ["var", "k"]]]},
+        {"name": "hc2", "params": ["r", "x"], "breaks": [], "expr": ["-", ["*", ["num", 3.0], ["call", "hc", [["var", "r"], ["var", "x"], ["num", float(a_)]]]],
+                                                                  ["call", "hc", [["var", "r"], ["var", "x"], ["num", float(b_)]]]]}]
+      u1 = {"k": rng.choice(["sum", "product"]), "a": [{"k": "custom", "name": "hc", "args": [x_, a_]}, {"k": "custom", "name": "hc", "args": [x_, b_]}]}
+      u2 = {"k": "custom", "name": "hc2", "args": [x_]}
+      for key in ("pair", "density", "embed"):
+        ents = m.get(key) or []
+        if len(ents) >= 2:
+          ents[0][-1], ents[1][-1] = u1, u2
+        elif ents:
+          ents[0][-1] = u1
     shared = 0
     if i % 5 == 3:
       shared = spec.share_leading_range(rng, m)
